@@ -8,3 +8,5 @@ import MtailVerif.Props.C09
 #print axioms MtailVerif.C09.frame_spec
 #print axioms MtailVerif.C09.frame_model
 #print axioms MtailVerif.C09.same_datum_iff_equal_tuple
+#print axioms MtailVerif.C09.metric_skeletons
+#print axioms MtailVerif.C09.datum_skeletons
